@@ -577,9 +577,8 @@ def percent_format(ctx, fmt, args):
     return mkstr(out)
 
 
-def opaque_format(ctx, kind, fmt, args):
-    """assumed contract for formatting with a symbolic format string"""
-    ctx.assumed_models.add("str %s-formatting with a symbolic format: function of (format, args); may raise" % kind)
+def format_terms(ctx, kind, fmt, args):
+    """(ok, result, err_is_type) terms of the assumed contract for formatting with a symbolic format string"""
     if not isinstance(args, (tuple, list)):
         args = (args,)
     key = ufun('fmtargs_nil', PyStr)()
@@ -590,10 +589,20 @@ def opaque_format(ctx, kind, fmt, args):
             key = ufun('fmtargs_str', PyStr, PyStr, PyStr)(key, str_term(to_str(ctx, a)))
     ft = str_term(fmt)
     ok = ufun('fmt_ok_' + kind, PyStr, PyStr, z3.BoolSort())(ft, key)
+    res = ufun('fmt_res_' + kind, PyStr, PyStr, PyStr)(ft, key)
+    et = ufun('fmt_err_is_type_' + kind, PyStr, PyStr, z3.BoolSort())(ft, key)
+    return ok, res, et, ufun('fmt_err_msg', PyStr, PyStr, PyStr)(ft, key)
+
+
+def opaque_format(ctx, kind, fmt, args):
+    """assumed contract for formatting with a symbolic format string"""
+    ctx.assumed_models.add("str %s-formatting with a symbolic format: function of (format, args); may raise "
+                           "TypeError/ValueError" % kind)
+    ok, res, et, msg = format_terms(ctx, kind, fmt, args)
     if ctx.decide(ok):
-        return mkstr([Opq(ufun('fmt_res_' + kind, PyStr, PyStr, PyStr)(ft, key))])
-    which = ctx.decide(ufun('fmt_err_is_type_' + kind, PyStr, PyStr, z3.BoolSort())(ft, key))
-    raise Raised(ExcObj(TypeError if which else ValueError, (), note=ufun('fmt_err_msg', PyStr, PyStr, PyStr)(ft, key)))
+        return mkstr([Opq(res)])
+    which = ctx.decide(et)
+    raise Raised(ExcObj(TypeError if which else ValueError, (), note=msg))
 
 
 def expand_fmt(ctx, f):
